@@ -470,3 +470,37 @@ func vh_speculate() {
 	}
 	vObserve("launched", launched)
 }
+
+// ---- the decision table of DowngradingConsistencyRetryPolicy, as its documentation states it ----
+//
+// "On a read timeout: retried. On a write timeout: UNLOGGED_BATCH with at least one acknowledgement is
+// retried; for other [plain] write types, if at least one replica acknowledged the write, the timeout is
+// ignored. On unavailable: retried if at least one replica is alive." A timed-out conditional (CAS)
+// write is none of these: it is rethrown, never sent again (its outcome is unknown).
+func vh_downgrading_decisions() {
+	p := &DowngradingConsistencyRetryPolicy{ConsistencyLevelsToTry: []Consistency{Two, One}}
+	n := int(vI32("replicas"))
+	switch vChoose("error", 4) {
+	case 0:
+		rt := p.GetRetryType(&RequestErrUnavailable{Alive: n})
+		if n > 0 {
+			vAssert(rt == Retry, "C13/downgrading/unavailable-with-a-live-replica-is-retried")
+		} else if n == 0 {
+			vAssert(rt == Rethrow, "C13/downgrading/unavailable-without-live-replicas-is-rethrown")
+		}
+	case 1:
+		vAssert(p.GetRetryType(&RequestErrReadTimeout{Received: n}) == Retry, "C13/downgrading/read-timeout-is-retried")
+	case 2:
+		wt := []string{"SIMPLE", "BATCH", "COUNTER", "UNLOGGED_BATCH"}[vChoose("write_type", 4)]
+		rt := p.GetRetryType(&RequestErrWriteTimeout{WriteType: wt, Received: n})
+		if n > 0 && wt == "UNLOGGED_BATCH" {
+			vAssert(rt == Retry, "C13/downgrading/acknowledged-unlogged-batch-timeout-is-retried")
+		} else if n > 0 {
+			vAssert(rt == Ignore, "C13/downgrading/acknowledged-write-timeout-is-ignored")
+		}
+		vAssert(rt != RetryNextHost, "C13/downgrading/a-timed-out-write-is-not-sent-to-another-host")
+	default:
+		rt := p.GetRetryType(&RequestErrWriteTimeout{WriteType: "CAS", Received: n})
+		vAssert(rt == Rethrow, "C13/downgrading/a-timed-out-conditional-write-is-rethrown")
+	}
+}
